@@ -251,4 +251,26 @@ Proof.
   - intros [H1 [H2 [H3 [H4 [H5 H6]]]]]. repeat split; auto. lia.
 Qed.
 
+(* Pedersen, any number of dealers: the product of the dealers' vectors (entry-wise, i.e. both the G- and
+   the H-coefficient vectors are added) verifies exactly the coordinate-wise sums of the secret parts and of
+   the blinding parts that the individual vectors assign to the holder *)
+Theorem pedersen_vv_op_sum_n : forall m id ss bs VA1 VAs VB1 VBs,
+  length VA1 = msp_D m -> Forall (fun V => length V = msp_D m) VAs ->
+  length VB1 = msp_D m -> Forall (fun V => length V = msp_D m) VBs ->
+  rows_of m id <> [] ->
+  (pedersen_verify K m id ss bs (fold_left (vadd K) VAs VA1) (fold_left (vadd K) VBs VB1) = true <->
+   ss = fold_left vals_add (map (fun V => derived m V id) VAs) (derived m VA1 id) /\
+   bs = fold_left vals_add (map (fun V => derived m V id) VBs) (derived m VB1 id)).
+Proof.
+  intros m id ss bs VA1 VAs VB1 VBs HA1 HAs HB1 HBs Hr.
+  rewrite pedersen_verify_iff.
+  rewrite <- (derived_fold_vadd m id (msp_D m) VAs VA1 HA1 HAs), <- (derived_fold_vadd m id (msp_D m) VBs VB1 HB1 HBs).
+  pose proof (fold_vadd_length (msp_D m) VAs VA1 HA1 HAs) as LA.
+  pose proof (fold_vadd_length (msp_D m) VBs VB1 HB1 HBs) as LB.
+  split.
+  - intros [_ [_ [_ [_ [H1 H2]]]]]. auto.
+  - intros [H1 H2]. repeat split; auto; try lia.
+    rewrite H1, H2. unfold derived. now rewrite !map_length.
+Qed.
+
 End VssProofs.
